@@ -7,8 +7,111 @@ HERE = os.path.dirname(os.path.dirname(os.path.abspath(__file__)))
 PY = "/venv/bin/python"
 
 # id -> (technique, level text, level note, design ref)
+def _c(tech, text, note, ref):
+    return (tech, text, note, ref)
+
+
+PROGRAMS = ("Hypothesis-generated build programs (plain-data AST over all 26 operation kinds, three relation types, nesting, "
+            "repetition counts, fixed / registry / global durations incl. zero) interpreted through the public API")
+
 CLAIMED = {
-    "C19": (
+    "C01": _c("generated build programs vs independent reference scheduler (model-based differential), order-independent structural matching",
+              "Exploration: " + PROGRAMS + "; every reported start/end/duration is compared with a reference model that is plain recursion over the "
+              "program data (no caches, no traversal order), after an order-independent correspondence between added items and present operations has "
+              "validated every explicit and implicit relation; repeated on apply_modifiers() against an unrolled model, with and without a prior listing.",
+              "Trusts the reference model (vcheck/model.py, ~250 lines, transcribed from the property statements) and Hypothesis' generator coverage as reported in the class histogram; ties between equally deep implicit predecessors are accepted in either direction.",
+              "DESIGN.md section 4 / C01"),
+    "C02": _c("generated build programs; identity / multiset / contiguity / causality / stability invariants over the listing",
+              "Exploration: " + PROGRAMS + " incl. shared link objects (equal-valued operations), branching graphs and empty sub-circuits; the listing is checked "
+              "for completeness (signature multiset = program leaves, top-level object identity), no duplicates, contiguity of each sub-circuit, causality "
+              "w.r.t. the reported relation, stability of two consecutive listings and get_last_entry().",
+              "Causality is judged from relation_link as reported by the listed operations; depth stays far below the graph depth limit.",
+              "DESIGN.md section 4 / C02"),
+    "C03": None,
+    "C04": _c("generated build programs biased to off-leaf spans; validity predicate duration == span of listed content",
+              "Exploration: " + PROGRAMS + " with ~70 % explicit relations so that the latest end / earliest start often sit on non-leaf / non-first operations; "
+              "for the circuit and every sub-circuit the reported duration must equal max end - min start over the operations it lists, 0 when empty, and "
+              "followers of a block may not start before the block's content has ended.",
+              "Takes reported start/end times at face value (their correctness is C01).",
+              "DESIGN.md section 4 / C04"),
+    "C05": _c("per-class generated copy(lookup) round-trips + generated programs copied explicitly/implicitly, then mutated (metamorphic independence)",
+              "Exploration: all 26 copy() implementations are exercised with generated field values, every relation type and lookup shape; whole programs are "
+              "copied through circuit_structure.copy() and add(sub) and compared position by position (signatures, relative schedule, re-pointed relations, "
+              "no shared objects); one side is then mutated (add / unroll / flatten) and the other side's fingerprint must not change.",
+              "Field-wise comparison uses the public attributes of each class; duration strategies are compared by behaviour under two global settings and a registry change.",
+              "DESIGN.md section 4 / C05"),
+    "C06": _c("generated programs with counts at every level vs unrolled reference model; metamorphic n*T; idempotence; library n-fold concatenation",
+              "Exploration: " + PROGRAMS + " with repetition counts 1..4 at every level (fixed and registry-provided, also the top circuit); after apply_modifiers() "
+              "the signature multiset, the structural correspondence, the schedule (vs the unrolled model), untouched outside operations, reset counts and "
+              "idempotence are checked; flat blocks ending on a leaf must last n x T; library circuits must list the exact n-fold concatenation.",
+              "Copy start times are compared with the model only when the deciding leaf belongs to the newest copy (otherwise the statement leaves the leaf set open); measured frequency of that exclusion is reported under notes.",
+              "DESIGN.md section 4 / C06"),
+    "C07": _c("generated measurement-rich programs with nested registries and counts; rank oracle over the listing; Stim record order",
+              "Exploration: programs with ~50 % measurements on <= 5 qubits, 3 tags, registries of the own circuit or any ancestor, counts at every level; after "
+              "apply_modifiers() circuit-level and per-qubit indices must be the ranks in listing order, both index filters exact, the exported measurement "
+              "record in the same order, never -1, indices increasing with time where claimed, and a measurement added after unrolling indexed last; library circuits too.",
+              "Indices are only claimed for modifier-applied circuits; a measurement's registry is its circuit's or an ancestor's (how the library uses registries).",
+              "DESIGN.md section 4 / C07"),
+    "C08": _c("generated programs over supported / unsupported / annotation kinds vs independent translation table validated against stim unitaries",
+              "Exploration: the export (REPEAT blocks expanded by the check, fused targets split) must equal the listing translated one by one by an oracle table whose "
+              "gate names are validated once per run against stim.gate_data unitaries / flags; all five detector target shapes generated; multiset and "
+              "measurement count equal before / after unrolling; library circuits export the identical expanded program.",
+              "Detector / observable target formulas are a transcription of the documented shapes (their physical meaning is C09); the listing itself is C02.",
+              "DESIGN.md section 4 / C08"),
+    "C09": _c("enumerated + generated constructor inputs vs classical bit-level protocol simulation; stim sampling / DEM determinism",
+              "Exploration: small sizes enumerated completely (d <= 3 quick / <= 4 thorough x all data and ancilla states x cycles), larger ones and Surface-17 sub-chains "
+              "sampled; the exported circuit is sampled with stim and every measurement must equal an independent bit-level model of the protocol; detector / "
+              "observable counts, determinism (detector_error_model, detector sampler) and the built / unrolled / flattened variants are checked.",
+              "For computational-basis inputs an off-by-one detector offset that stays in range remains deterministic and is therefore not detectable here (stated in the module's ASSUMPTIONS).",
+              "DESIGN.md section 4 / C09"),
+    "C10": _c("enumerated duration grid + generated constructor inputs under global-duration overrides; pairwise channel-overlap validity predicate",
+              "Exploration: all {0.5,1,2,3}^4 duration settings for one circuit plus generated (constructor, distance, states, cycles, durations) inputs for the four "
+              "library constructors, as built and unrolled; any two non-zero operations sharing a channel (own matching rule) must not overlap and nothing may overlap a barrier on its qubits.",
+              "Circuits are built and read inside one duration override; one recorded open finding (simplified constructor without refocusing) is excluded by a narrow signature and counted.",
+              "DESIGN.md section 4 / C10"),
+    "C11": _c("generated nested programs (multiset / no-sub-circuit / idempotence invariants) + library circuits (before/after differential)",
+              "Exploration: implicitly sequenced and explicitly related nested programs must keep the signature multiset, contain no sub-circuit afterwards and be "
+              "unchanged by a second flatten(); modifier-applied library circuits (repetition code, simplified, multi-round, calibration) must keep listing order, "
+              "schedule, duration, acquisition indices (all filters) and Stim text.",
+              "Order / schedule preservation is asserted for library circuits only, as the property states.",
+              "DESIGN.md section 4 / C11"),
+    "C12": _c("exhaustive small experiment descriptions + generated ones; algebraic tiling / disjointness / translation invariants",
+              "Exploration: all ordered lists of 1..3 distinct counts from {0..3} x flags x repetitions enumerated, larger descriptions and direct kernel chains generated; "
+              "contiguity, lengths summing to the cycle, categories inside their kernel and pairwise disjoint, ancilla coverage minus the documented slot, "
+              "unknown ids empty, repetition translates and the repetition estimate are checked.",
+              "No model of the offsets is used: only the invariants the property states.",
+              "DESIGN.md section 4 / C12"),
+    "C13": _c("differential between the multi-round circuit's tagged acquisition indices and the experiment index kernel",
+              "Exploration: d=2 grid enumerated, larger (rounds list, distance, states, description) inputs generated; per ancilla the circuit's heralded / parity / final "
+              "indices must equal the kernel's heralded / stabilizer+projected / calibration indices with the documented 0-round exception, block by block.",
+              "Both sides are library code: agreement is what the property claims; each side alone is C07 / C12.",
+              "DESIGN.md section 4 / C13"),
+    "C14": _c("generated Stim circuits x noise settings x index maps; strip-noise round-trip + independent T1/T2 formula",
+              "Exploration: instruction-list circuits (all exported gate names, REPEAT nesting, valid record lookbacks), library exports and single-gate blocks are dressed with "
+              "generated default / per-qubit settings and maps; stripping the noise must give back the flattened input, probabilities must be valid, measurement "
+              "arguments must equal the configured assignment errors and every idle channel must equal an independent evaluation of the T1/T2 formula.",
+              "Stim's flattened() and gate_data are trusted; tolerance 1e-9 relative.",
+              "DESIGN.md section 4 / C14"),
+    "C15": _c("generated programs exported against a recording OpenQL platform (test double) + real OpenQL compile cross-check",
+              "Exploration: the exporter runs against a recording platform that logs kernel / program calls and rejects duplicate kernel names like OpenQL; the executed "
+              "instruction sequence must equal the listing translated by an independent table with sub-circuits expanded in place count times; names must be "
+              "reproducible; a subset is compiled by the real OpenQL and the written cQASM parsed and compared, which also validates the double.",
+              "Wait durations are integers; the top circuit's own count is not exported.",
+              "DESIGN.md section 4 / C15"),
+    "C16": _c("exhaustive enumeration of edge subsets (<= 3 quick, <= 4 thorough) + generated larger subsets vs independent Surface-17 frequency oracle",
+              "Exploration with an exhaustive core: every non-empty subset of up to 3 (quick) / 4 (thorough) of the 24 edges is judged by an independent device table "
+              "(own qubit / edge / frequency-level transcription) for acceptance, and every idle qubit of each qubit-disjoint subset for parking; larger subsets and "
+              "sequence-generator requests are generated; every emitted sequence must use each gate once and only accepted steps.",
+              "The device table (vcheck/device.py) is validated against the library's public qubit / edge listing once per run (mismatch = harness error).",
+              "DESIGN.md section 4 / C16"),
+    "C17": _c("enumeration of shipped layouts and contiguous sub-chains + generated subsets / exclusions vs independent device oracle",
+              "Exploration: the four shipped layouts, every contiguous window of each chain, generated subsets / orderings / index maps and composite descriptions with "
+              "exclusions are checked layer by layer: gates are device edges on distinct qubits, parked and gated disjoint, required parking present (C16 oracle), each "
+              "parity-group edge exactly once, derived gates = layout gates with both qubits involved, index maps bijective and consistent.",
+              "Extra parks and acceptance of a whole layer are not judged (not claimed).",
+              "DESIGN.md section 4 / C17"),
+    "C18": None,
+    "C19": _c(
         "exhaustive enumeration of the 36x36 channel-identifier grid + Hypothesis pairs/triples/sequences against a transcribed matching oracle",
         "Exploration: the finite grid of channel identifiers (9 qubit ids x 4 channels, all ordered pairs) is enumerated completely; "
         "triples, edge/qubit identifier pairs (small name alphabet, foreign operands) and sequences for unique_in_order are Hypothesis-generated "
@@ -18,6 +121,7 @@ CLAIMED = {
         "DESIGN.md section 4 / C19",
     ),
 }
+CLAIMED = {k: v for k, v in CLAIMED.items() if v is not None}
 
 NOT_YET = "check not built yet in this session (planned in DESIGN.md section 4); will be claimed once its check is registered"
 
